@@ -110,6 +110,14 @@ def gen_cases(tier, rng):
     for mode in RX_MODES:
         for _ in range(nrx):
             out.append({"kind": "phyrx", "mode": mode, "seed": rng.u64(), "len": lrx})
+    # receive half again, this time in lock step with the composed Lean model (Model/Usb3/PhyRx.lean); the pin
+    # stream additionally starts at every symbol offset 0..3 (the word aligner locks onto the first COM COM COM COM)
+    nrm = {"quick": 2, "widen": 3, "thorough": 8}.get(tier, 2)
+    k = 0
+    for mode in RX_MODES:
+        for _ in range(nrm):
+            out.append({"kind": "phyrxm", "mode": mode, "seed": rng.u64(), "len": lrx, "offset": [0, 1, 2, 3, 0][k % 5]})
+            k += 1
     return out
 
 
@@ -533,14 +541,15 @@ def rx_link_words(rng, n):
     return words[:n]
 
 
-def stim_phyrx(mode, rng, L):
+def stim_phyrx(mode, rng, L, offset=0):
     """-> (rows [rx_data, rx_datak, enable_scrambling], link words).  The link words are scrambled with the
     reference LFSR exactly as the property describes the transmitter (key byte per symbol, K symbols untouched,
-    restart after a word with COM in symbol 0), then SKP symbols are inserted into the symbol stream."""
+    restart after a word with COM in symbol 0), then SKP symbols are inserted into the symbol stream.
+    `offset` data symbols are put in front: the far end's words then sit at that symbol offset of the PHY's words."""
     en = 0 if rng.chance(20) else 1
     words = rx_link_words(rng, L)
     state = 0xFFFF
-    syms = []
+    syms = [(0x4A, 0)] * offset
     p = {"skp-words": 4, "skp-sets": 6, "skp-any": 8, "dense": 45, "no-skp": 0}[mode]
     for (d, c) in words:
         key, nxt = key_of(state)
@@ -561,11 +570,17 @@ def stim_phyrx(mode, rng, L):
     return rows, words
 
 
-def run_phyrx(desc):
+NAMES_RX_OUT = ["source.valid", "source.data", "source.ctrl", "raw_source.valid", "raw_source.data", "raw_source.ctrl",
+                "skip_removed", "ctc_bytes_in_buffer", "alignment_offset"]
+
+
+def run_phyrx(desc, model=False):
     """Receive half of the real USB3PhysicalLayer: PHY rx pins -> CTCSkipRemover -> RxWordAligner -> Descrambler ->
-    RxPacketAligner -> source.  Monitor only: the valid words leaving `source` after the first COM-first word must be
+    RxPacketAligner -> source.  Monitor: the valid words leaving `source` after the first COM-first word must be
     the far end's link words after its first COM-first word, in order — i.e. the descrambler's keystream did not move
-    over the removed SKP symbols and moved once per delivered word."""
+    over the removed SKP symbols and moved once per delivered word.  With `model` (kind phyrxm) the same run is also
+    compared cycle by cycle, nothing masked, with the composed Lean model `PhyRx.step` (driver model 4): source,
+    raw_source, skip_removed, ctc_bytes_in_buffer, alignment_offset."""
     from luna.gateware.usb.usb3.physical.layer import USB3PhysicalLayer
     from luna.gateware.interface.pipe import PIPEInterface
     phy = PIPEInterface(width=4)
@@ -575,16 +590,25 @@ def run_phyrx(desc):
         words = [tuple(w) for w in desc["words"]]
         stim = desc["stimulus"]
     else:
-        stim, words = stim_phyrx(mode, Rng(desc["seed"]), desc.get("len", 800))
+        stim, words = stim_phyrx(mode, Rng(desc["seed"]), desc.get("len", 800), desc.get("offset", 0))
         stim = desc.get("stimulus") or stim          # a replay carries the (possibly shortened) pin trace
     fed = sum(4 - bin(r[1] & sum(1 << i for i in range(4) if (r[0] >> (8 * i)) & 0xFF == 0x3C)).count("1")
               for r in stim) // 4                     # link words completely contained in the pin trace
     words = words[:fed]
-    rows = sim.run_cycles(dut, [phy.rx_data, phy.rx_datak, dut.enable_scrambling],
-                          [dut.source.valid, dut.source.data, dut.source.ctrl], stim, domain="ss",
+    outs = [dut.source.valid, dut.source.data, dut.source.ctrl]
+    if model:
+        outs += [dut.raw_source.valid, dut.raw_source.data, dut.raw_source.ctrl, dut.skip_removed,
+                 dut.ctc_bytes_in_buffer, dut.alignment_offset]
+    rows = sim.run_cycles(dut, [phy.rx_data, phy.rx_datak, dut.enable_scrambling], outs, stim, domain="ss",
                           extra_clocks={"sync": 1e-6})
-    got = [(t, d, c) for t, (v, d, c) in enumerate(rows) if v]
+    got = [(t, r[1], r[2]) for t, r in enumerate(rows) if r[0]]
     fails, tags = [], {"phyrx", "phyrx-mode=" + mode, "scrambling=%d" % stim[0][2]}
+    if model:
+        tags |= {"phyrxm", "phyrxm-pin-offset=%d" % desc.get("offset", 0)}
+        tags |= {"phyrxm-alignment_offset=%d" % r[8] for r in rows}
+        tags |= {"phyrxm-ctc_bytes=%d" % r[7] for r in rows}
+        if any(r[6] for r in rows):
+            tags.add("phyrxm-skip_removed")
     i0 = next((i for i, w in enumerate(words) if is_com0(*w)), None)
     j0 = next((j for j, (_t, d, c) in enumerate(got) if is_com0(d, c)), None)
     if i0 is None:
@@ -608,12 +632,19 @@ def run_phyrx(desc):
         tags.add("phyrx-words-compared>=%d" % (100 * (min(len(out), len(exp)) // 100)))
         nskp = sum(bin(r[1] & sum(1 << i for i in range(4) if (r[0] >> (8 * i)) & 0xFF == 0x3C)).count("1") for r in stim)
         tags.add("phyrx-skp-symbols" if nskp > 8 else "phyrx-no-skp")
+    if model:
+        return Case([4, 0xFFFF, 0xFFFF], stim, rows, fails, sorted(tags), desc,
+                    ["phy.rx_data", "phy.rx_datak", "enable_scrambling"], NAMES_RX_OUT)
     return Case([9, 0, 0], stim, rows, fails, sorted(tags), desc, ["phy.rx_data", "phy.rx_datak", "enable_scrambling"],
                 ["source.valid", "source.data", "source.ctrl"], lean=False)
 
 
+def run_phyrxm(desc):
+    return run_phyrx(desc, model=True)
+
+
 RUNNERS = {"lfsr": run_lfsr, "scr": run_scr, "pair": run_pair, "phy": run_phy, "phytx": run_phytx,
-           "phyrx": run_phyrx}
+           "phyrx": run_phyrx, "phyrxm": run_phyrxm}
 
 
 def run_case(desc):
